@@ -1038,6 +1038,53 @@ pub fn run(ctx: Ctx) -> ! {
         }
         base_report.push(json!({"base": built.label, "accepted": true, "mutators": muts.len()}));
     }
+    // ---- the collateral rules on a spend whose Plutus script is a REFERENCE script
+    // (base B3ref). The rule model does not know reference scripts, so this family is
+    // judged directly: B3ref is accepted, it runs a Plutus script (it carries redeemers
+    // for two script-locked inputs), and each mutator below breaks exactly one collateral
+    // rule of such a transaction (the same mutators the table uses on B3).
+    let mut refscript_report: Vec<Value> = vec![];
+    for era in [Era::Babbage, Era::Conway] {
+        let base = bases::b3ref(era);
+        let b0 = build(&base);
+        let v0 = crate::exec::run(&b0);
+        if !v0.accepted() {
+            crate::fail(&format!("C38: base {} is not accepted on the current tree: {v0:?}", b0.label));
+        }
+        type Mutation = Box<dyn Fn(&mut Case)>;
+        let muts: Vec<(&str, &str, Mutation)> = vec![
+            ("collateral=none", "collateral-count", Box::new(|c: &mut Case| c.tx.collateral = None)),
+            ("collateral=[]", "collateral-count", Box::new(|c: &mut Case| c.tx.collateral = Some(vec![]))),
+            ("collateral=[T0#0,T0#1,T1#0,T1#1] (max 3)", "collateral-count", Box::new(|c: &mut Case| c.tx.collateral = Some(vec![U00, U01, U10, U11]))),
+            ("collateral=[missing]", "collateral-in-utxo", Box::new(|c: &mut Case| c.tx.collateral = Some(vec![MISSING]))),
+            ("collateral=[T1#0] (script-locked)", "collateral-key-locked", Box::new(|c: &mut Case| c.tx.collateral = Some(vec![U10]))),
+            ("utxo[T0#1].coin=1 (below 150% of the fee)", "collateral-ada-only-and-percentage", Box::new(|c: &mut Case| {
+                if let Some(u) = c.env.get_mut(&U01) {
+                    u.out.coin = Coin::Fixed(1)
+                }
+            })),
+            ("total_collateral=1", "collateral-annotation", Box::new(|c: &mut Case| c.tx.total_collateral = Some(TotalCollateral::Exact(1)))),
+        ];
+        let mut accepted = 0u64;
+        for (name, rule, f) in &muts {
+            let mut c = base.clone();
+            f(&mut c);
+            c.devs.push(format!("[{name}]"));
+            let b = build(&c);
+            let v = crate::exec::run(&b);
+            if v.accepted() {
+                accepted += 1;
+                found.add(
+                    format!("c38:{rule}:{}:reference-script", era.group()),
+                    1,
+                    format!("{} validator accepted a reference-script spend that violates only the rule \"{}\" ({name})", era.group(), rulemodel::row(rule).map(|r| r.text).unwrap_or(rule)),
+                    &b,
+                    &v,
+                );
+            }
+        }
+        refscript_report.push(json!({"base": b0.label, "accepted": true, "mutators": muts.len(), "mutants_accepted": accepted}));
+    }
     crate::quiet::restore_stderr();
 
     // ---- vacuity: every cell of the table was exercised on an accepted base
@@ -1122,6 +1169,7 @@ pub fn run(ctx: Ctx) -> ! {
         "outcome_classes" => classes,
         "cells" => cell_report,
         "bases" => base_report,
+        "reference_script_collateral_family" => refscript_report,
         "counters" => *book.counters.lock().unwrap(),
         "valid_native_script_transactions_probe" => probes,
         "min_ada_ledger_formula_probe" => min_ada_probe,
